@@ -29,6 +29,10 @@ pub fn tier_size(p: &str, thorough: bool) -> (u64, u64) {
         "C04" => 7_000,
         "C03" | "C06" => 12_000,
         "C01" | "C02" => 16_000,
+        "C15" => 14_000,
+        "C18" => 5_000,
+        "C09" => 30_000,
+        "C13" => 50_000,
         _ => 20_000,
     };
     if thorough {
@@ -75,8 +79,33 @@ pub fn generate(p: &str, seed: u64) -> (Scenario, SchedCfg) {
             }
         }
         "C07" => families::disconnect(sub),
+        "C09" => families::seq_family(sub, "seq", None, &crate::seq::SeqOpts { len_max: 400, mpmc_second_stream: false, fut_bias: 40, churn: false, norecv: false }),
         "C08" => families::blockrecv(sub),
+        "C13" => {
+            if w < 40 {
+                families::seq_family(sub, "seq.norecv", None, &crate::seq::SeqOpts { len_max: 40, mpmc_second_stream: false, fut_bias: 50, churn: false, norecv: true })
+            } else {
+                families::norecv(sub)
+            }
+        }
         "C14" => families::futpark(sub),
+        "C15" => {
+            if w < 35 {
+                families::seq_family(sub, "seq.fut", Some(true), &crate::seq::SeqOpts { len_max: 300, mpmc_second_stream: false, fut_bias: 100, churn: false, norecv: false })
+            } else if w < 70 {
+                families::core(sub, "fut.direct", &CoreOpts { fut: true, small_cap: true, fut_direct: true, ..Default::default() })
+            } else {
+                families::core(sub, "fut.solo", &CoreOpts { fut: true, small_cap: true, solo: 2, max_consumers: 2, ..Default::default() })
+            }
+        }
+        "C18" => {
+            let o = CoreOpts { solo: 1, no_notify_wait: true, max_consumers: 2, ..Default::default() };
+            if w < 50 {
+                families::core(sub, "core.solo", &o)
+            } else {
+                families::core(sub, "shared.solo", &CoreOpts { force_shared: true, max_streams: 1, small_cap: true, ..o })
+            }
+        }
         _ => families::core(sub, "core", &CoreOpts::default()),
     }
 }
@@ -133,6 +162,10 @@ pub fn evaluate(p: &str, scn: &Scenario, o: &RunOutcome) -> Verdict {
         "C08" => vs.extend(oracles::c08(&a, o)),
         "C14" => vs.extend(oracles::c14(&a, o)),
         "C16" => vs.extend(oracles::c16(o)),
+        "C09" => vs.extend(oracles::c09(&a, o)),
+        "C13" => vs.extend(oracles::c13(&a, scn, o)),
+        "C15" => vs.extend(oracles::c15(&a, scn, o)),
+        "C18" => vs.extend(oracles::c18(&a, o)),
         _ => {}
     }
     if stuck && vs.is_empty() && harness_error.is_none() {
@@ -152,6 +185,11 @@ pub fn evaluate(p: &str, scn: &Scenario, o: &RunOutcome) -> Verdict {
         v.tags.extend(scn.tags.iter().cloned());
     }
     let s = &o.stats;
-    let nontrivial = complete && s.preempts_in_api >= 1 && s.contention >= 1;
+    let nontrivial = if scn.seq.is_some() {
+        // sequential engine: non-trivial = at least 5 calls executed against the model
+        complete && o.fin.seq_calls >= 5
+    } else {
+        complete && s.preempts_in_api >= 1 && s.contention >= 1
+    };
     Verdict { violations: vs, nontrivial, harness_error }
 }
